@@ -26,7 +26,8 @@ def extract_border_cycle(mesh : SurfaceMesh, starting_point : int = None):
         raise Exception("Starting point (vertex {}) is not on mesh border".format(starting_point))
 
     vborder, eborder = [starting_point], []
-    point1, point2 = starting_point, mesh.connectivity.vertex_to_vertices(starting_point)[0]
+    # first neighbour joined to the starting point by a border *edge* (the first of the sorted fan when neighbourhoods are sorted)
+    point1, point2 = starting_point, next(v for v in mesh.connectivity.vertex_to_vertices(starting_point) if mesh.is_edge_on_border(starting_point, v))
     nvisited = 0
     MAX_VISITED = len(mesh.vertices)
         
@@ -35,7 +36,7 @@ def extract_border_cycle(mesh : SurfaceMesh, starting_point : int = None):
         vborder.append(point2)
         eborder.append(mesh.connectivity.edge_id(point1, point2))
         for v in mesh.connectivity.vertex_to_vertices(point2):
-            if mesh.is_vertex_on_border(v) and v!=point1:
+            if v!=point1 and mesh.is_edge_on_border(point2, v): # follow border edges only (an interior edge may join two border vertices)
                 point1, point2 = point2, v
                 break
         nvisited += 1
